@@ -125,6 +125,7 @@ func NewExplorer(prog *ssa.Program, h *ssa.Function) *Explorer {
 	registerGradingModel(ex)
 	registerRegexModel(ex)
 	registerCtxModel(ex)
+	registerThreads(ex)
 	return ex
 }
 
